@@ -4,8 +4,9 @@
    Model: Fix/Tags.v ([check] = verdict of an asn1c run, tied to libasn1fix by
    bin/vcheck C11).  Spec: Fix/Distinct.v ([distinct_spec], [tagging_wf]). *)
 From Coq Require Import ZArith List Bool.
-From A1 Require Import Fix.Tags Fix.Distinct Fix.DistinctProofs.
+From A1 Require Import Fix.Tags Fix.Distinct Fix.DistinctProofs Fix.ComponentsOf Fix.ComponentsOfProofs.
 Import ListNotations.
+Local Open Scope Z_scope.
 
 (* ---- accepted => unambiguous.  False of the code in general (refuted below);
         holds when no component is an untagged reference to an untagged CHOICE ---- *)
@@ -102,3 +103,81 @@ Theorem C11_enum_values_complete_refuted :
   exists items, NoDup (explicit_values items) /\ NoDup (map fst items) /\ enum_val_clash items = true.
 Proof. exact enum_val_clash_complete_refuted. Qed.
 Print Assumptions C11_enum_values_complete_refuted.
+
+(* ==== modules with COMPONENTS OF and extensible ENUMERATED (Fix/ComponentsOf.v) ====
+   [xcheck] = verdict of an asn1c run on the surface syntax = [check] after asn1c's
+   expansion [expand_c] (+ the two checks made on the notation as written);
+   the specification is [distinct_spec] after X.680's expansion [expand_x680]. *)
+
+(* the bridge: an accepted surface module is an accepted core module *)
+Theorem C11_compof_accept_is_check_accept : forall xm, xcheck xm = XAccept ->
+  exists m, expand_c xm = Some m /\ check m = Accept /\ pre_reasons xm = [].
+Proof. exact xcheck_accept. Qed.
+Print Assumptions C11_compof_accept_is_check_accept.
+
+(* accepted => unambiguous, where asn1c's expansion is X.680's.  False without that
+   hypothesis (two refutations below). *)
+Theorem C11_compof_sound_partial : forall xm m,
+  xcheck xm = XAccept -> expand_x680 xm = Some m -> expand_c xm = Some m ->
+  chref_free m -> distinct_spec m.
+Proof. exact compof_sound_partial. Qed.
+Print Assumptions C11_compof_sound_partial.
+
+(* an identifier inherited through COMPONENTS OF is never compared *)
+Theorem C11_compof_sound_refuted_ident :
+  exists xm m, xcheck xm = XAccept /\ expand_x680 xm = Some m /\ ~ distinct_spec m.
+Proof. exact compof_sound_refuted_ident. Qed.
+Print Assumptions C11_compof_sound_refuted_ident.
+
+(* types nested in an inherited component lose their extension marker *)
+Theorem C11_compof_sound_refuted_nested_ext :
+  exists xm m, xcheck xm = XAccept /\ expand_x680 xm = Some m /\ ~ distinct_spec m.
+Proof. exact compof_sound_refuted_ext. Qed.
+Print Assumptions C11_compof_sound_refuted_nested_ext.
+
+(* unambiguous and well-formed => not rejected, likewise; additionally the first
+   additional enumeration of every extensible ENUMERATED must not be negative
+   (refuted without: C11_enum_ext_complete_refuted) *)
+Theorem C11_compof_complete_partial : forall xm m,
+  expand_x680 xm = Some m -> expand_c xm = Some m ->
+  xwf_written xm = true -> forallb xenum_adds_nonneg (all_xtypes xm) = true ->
+  tagging_wf m -> distinct_spec m -> enums_plain m ->
+  xcheck xm = XAccept \/ xcheck xm = XCrashes.
+Proof. exact compof_complete_partial. Qed.
+Print Assumptions C11_compof_complete_partial.
+
+Theorem C11_enum_ext_complete_refuted :
+  exists xm m, expand_x680 xm = Some m /\ expand_c xm = Some m /\ xwf_written xm = true /\
+               tagging_wf m /\ distinct_spec m /\ enums_plain m /\ xcheck xm = XReject [XEnumOrder].
+Proof. exact enum_ext_complete_refuted. Qed.
+Print Assumptions C11_enum_ext_complete_refuted.
+
+(* ---- asn1f_fix_enum's order check of additional enumerations vs X.680 20.4, any values ---- *)
+Theorem C11_enum_ext_order_sound : forall l, c_order_err (-1) l = false -> x680_order_ok l = true.
+Proof. exact enum_order_sound. Qed.
+Print Assumptions C11_enum_ext_order_sound.
+
+Theorem C11_enum_ext_order_complete_partial : forall l,
+  x680_order_ok l = true -> match l with v :: _ => 0 <= v | [] => True end ->
+  c_order_err (-1) l = false.
+Proof. exact enum_order_complete_partial. Qed.
+Print Assumptions C11_enum_ext_order_complete_partial.
+
+Theorem C11_enum_ext_order_complete_refuted : exists l, x680_order_ok l = true /\ c_order_err (-1) l = true.
+Proof. exact enum_order_complete_refuted. Qed.
+Print Assumptions C11_enum_ext_order_complete_refuted.
+
+(* ---- the surface model extends the model of Fix/Tags.v: a module without COMPONENTS OF
+        and without extensible enumerations expands to itself (either policy), and the
+        two verdict functions agree on it ---- *)
+Theorem C11_compof_conservative_expand : forall pol m, expand pol (embed m) = Some m.
+Proof. exact expand_embed. Qed.
+Print Assumptions C11_compof_conservative_expand.
+
+Theorem C11_compof_conservative_accept : forall m, xcheck (embed m) = XAccept <-> check m = Accept.
+Proof. exact xcheck_embed_accept. Qed.
+Print Assumptions C11_compof_conservative_accept.
+
+Theorem C11_compof_conservative_crashes : forall m, xcheck (embed m) = XCrashes <-> check m = Crashes.
+Proof. exact xcheck_embed_crashes. Qed.
+Print Assumptions C11_compof_conservative_crashes.
